@@ -279,7 +279,7 @@ theorem m1_fresh (cfg : Cfg) (ps : PS) (r : Req) (t : Items) (hp : ps.paired = [
     (step cfg ps r).2.1
         = .m2 r.salt (Srp.mk cfg.c.H cfg.G SRP_USER ps.pincode r.salt (bytesToNat r.bRand)).Bb := by
   rw [step_seq cfg ps r t [1] hp hd hs]
-  simp [pairingOne, verifiedNow, Srp.mk]
+  simp [pairingOne, verifiedNow, Srp.mk, Server.getChallenge]
 
 /-- no request changes the accessory's setup code, identifier or long-term key -/
 theorem step_identity (cfg : Cfg) (ps : PS) (r : Req) :
